@@ -264,6 +264,15 @@ func unknownVals() []struct {
 		{"map", tbin.Map(tbin.STRING, tbin.LIST, tbin.Str("k"), tbin.List(tbin.STRING, tbin.Str("a")))},
 		{"struct", tbin.Struct(tbin.F(1, tbin.I32v(5)), tbin.F(2, tbin.Struct()))},
 		{"empty-list", tbin.List(tbin.STRUCT)},
+		// containers of fixed-size elements (the skipper's arithmetic fast paths), sizes 0, 2, 3
+		{"map-fixed-fixed/0", tbin.Map(tbin.I32, tbin.I64)},
+		{"map-fixed-fixed/2", tbin.Map(tbin.I32, tbin.I64, tbin.I32v(1), tbin.I64v(-1), tbin.I32v(2), tbin.I64v(0))},
+		{"map-fixed-fixed/3", tbin.Map(tbin.BYTE, tbin.BOOL, tbin.Byte(1), tbin.Bool(true), tbin.Byte(2), tbin.Bool(false), tbin.Byte(0), tbin.Bool(false))},
+		{"map-fixed-fixed/3", tbin.Map(tbin.DOUBLE, tbin.I16, tbin.Double(1.5), tbin.I16v(1), tbin.Double(0), tbin.I16v(0), tbin.Double(-2), tbin.I16v(-2))},
+		{"map-var-fixed/2", tbin.Map(tbin.STRING, tbin.I32, tbin.Str("a"), tbin.I32v(0), tbin.Str(""), tbin.I32v(1))},
+		{"map-fixed-var/2", tbin.Map(tbin.I32, tbin.STRING, tbin.I32v(0), tbin.Str(""), tbin.I32v(1), tbin.Str("b"))},
+		{"list-fixed/3", tbin.List(tbin.I64, tbin.I64v(0), tbin.I64v(1), tbin.I64v(0))},
+		{"set-fixed/2", tbin.Set(tbin.BYTE, tbin.Byte(0), tbin.Byte(1))},
 	}
 }
 
@@ -335,17 +344,28 @@ func enumKeys(tier string, yield func(*scen) bool) {
 		tbin.SField{ID: 5, Name: "user_id", S: tbin.Sc(tbin.I32)},
 		tbin.SField{ID: 6, Name: "uni", S: tbin.Sc(tbin.I32)},
 		tbin.SField{ID: 7, Name: "esc", S: tbin.Sc(tbin.I32)},
+		tbin.SField{ID: 8, Name: "quo", S: tbin.Sc(tbin.I32)},
+		tbin.SField{ID: 9, Name: "ctl", S: tbin.Sc(tbin.I32)},
+		tbin.SField{ID: 10, Name: "bsl", S: tbin.Sc(tbin.I32)},
 	)
 	p := jt.NewProg("keys", st)
+	// keys that need JSON escaping: a double quote, a control character (a raw TAB in the IDL literal) and a
+	// backslash (single-quoted IDL literals are taken verbatim)
+	p.Set(st, 7, jt.FX{Alias: "q\"uo", Ann: []string{`api.key = 'q"uo'`}})
+	p.Set(st, 8, jt.FX{Alias: "ta\tb", Ann: []string{"api.key = \"ta\tb\""}})
+	p.Set(st, 9, jt.FX{Alias: "back\\slash", Ann: []string{`api.key = 'back\slash'`}})
 	p.Set(st, 1, jt.FX{Alias: "k2", Ann: []string{`api.key = "k2"`}})
 	p.Set(st, 2, jt.FX{Alias: "tag3", Ann: []string{`go.tag = "json:\"tag3\""`}})
 	p.Set(st, 3, jt.FX{Alias: "user_name", Ann: []string{`agw.to_snake = "true"`}})
 	p.Set(st, 4, jt.FX{Alias: "userId", Ann: []string{`agw.to_lower_camel_case = "true"`}})
 	p.Set(st, 5, jt.FX{Alias: "k-é.6", Ann: []string{`api.key = "k-é.6"`}})
 	p.Set(st, 6, jt.FX{Alias: "a b/c", Ann: []string{`api.key = "a b/c"`}})
-	for mask := 1; mask < 128; mask++ {
+	for mask := 1; mask < 1024; mask++ {
+		if mask >= 128 && mask&127 != 0 && mask&127 != 127 {
+			continue // the three escape-needing keys: alone, in every subset of themselves, and with all the others
+		}
 		v := tbin.Struct()
-		for i := 6; i >= 0; i-- {
+		for i := 9; i >= 0; i-- {
 			if mask>>uint(i)&1 == 1 {
 				v.Fs = append(v.Fs, tbin.F(int16(i+1), tbin.I32v(int32(100+i))))
 			}
